@@ -310,6 +310,14 @@ fn check_fixed_block(m: &Message, kind: usize, b: &[u8], o: usize) {
 /// Message = header(32) + pointer table(8) + GAP1 + block A + GAP2 + block B; the pointer table lists
 /// (A, B) or, when PERMUTE, (B, A).  Moment blocks carry DATA bytes (gates = DATA/word-bytes).
 fn two_blocks<const KA: usize, const KB: usize, const GAP1: usize, const GAP2: usize, const PERMUTE: bool, const DATA: usize, const L: usize>() {
+    two_blocks_lrtup::<KA, KB, GAP1, GAP2, PERMUTE, DATA, L, 0>()
+}
+
+/// LRA != 0: block A is a fixed block (VOL/ELV/RAD) whose declared size field (lrtup, bytes 4..6) is
+/// the CONCRETE value LRA - e.g. the distance to the next block when a gap follows - so that a decoder
+/// which trusts that field to locate the next block is decided (with a symbolic lrtup its reader
+/// position turns symbolic: out of 16 GB).
+fn two_blocks_lrtup<const KA: usize, const KB: usize, const GAP1: usize, const GAP2: usize, const PERMUTE: bool, const DATA: usize, const L: usize, const LRA: usize>() {
     let mut b: [u8; L] = kani::any();
     let oa = 40 + GAP1;
     let ob = oa + block_len(KA, DATA) + GAP2;
@@ -334,6 +342,16 @@ fn two_blocks<const KA: usize, const KB: usize, const GAP1: usize, const GAP2: u
     };
     setup(oa, KA);
     setup(ob, KB);
+    if LRA != 0 {
+        b[oa + 4] = (LRA >> 8) as u8;
+        b[oa + 5] = LRA as u8;
+        // gap bytes concrete: if they are mistaken for a block, its name must not be symbolic
+        let mut i = oa + block_len(KA, DATA);
+        while i < ob {
+            b[i] = 0;
+            i += 1;
+        }
+    }
     let (m, pos) = decode_ok(&b);
     check_header(&m.header, &b);
     assert!(present_mask(&m) == (1 << KA) | (1 << KB), "C02: blocks routed to the wrong products / extra or missing blocks");
@@ -370,6 +388,15 @@ macro_rules! two_block_harness {
     };
 }
 two_block_harness!(c02_two_vol_ref, 0, 3, 0, 0, false, 4);
+
+/// VOL (declared size 60 = its 52 bytes + the 8-byte gap) followed by ELV after the gap.
+#[kani::proof]
+#[kani::unwind(12)]
+#[kani::stub(alloc::fmt::format, crate::stubs::fmt_format)]
+#[kani::stub(<[u8; 4] as core::convert::TryFrom<&[u8]>>::try_from, crate::stubs::array_try_from)]
+fn c02_two_vol_elv_declared_size_spans_gap() {
+    two_blocks_lrtup::<0, 1, 0, 8, false, 0, { 40 + block_len(0, 0) + 8 + block_len(1, 0) }, 60>();
+}
 two_block_harness!(c02_two_ref_vol_permuted_gaps, 3, 0, 3, 1, true, 2);
 two_block_harness!(c02_two_elv_rad_gap, 1, 2, 4, 0, false, 0);
 two_block_harness!(c02_two_phi_rho_permuted, 7, 8, 0, 2, true, 4);
